@@ -31,12 +31,20 @@ func (o outcome) accepted() bool { return !o.panicked && o.err == nil }
 // signature; anything else is a new finding.
 func panicSig(r any, stack string) string {
 	msg := fmt.Sprint(r)
+	// the innermost frame of the repository: where the panic happened
+	top := ""
+	for _, line := range strings.Split(stack, "\n") {
+		if strings.HasPrefix(line, "github.com/google/certificate-transparency-go/") {
+			top = line
+			break
+		}
+	}
 	switch {
-	case strings.Contains(msg, "index out of range") && strings.Contains(stack, "ctfe.ValidateLogConfig("):
+	case strings.Contains(msg, "index out of range") && strings.Contains(top, "ctfe.ValidateLogConfig("):
 		// strings.Split(conn, "://")[1] on a connection string without the separator
 		return "config-panic-connstring"
 	case strings.Contains(msg, "nil pointer dereference") &&
-		(strings.Contains(stack, "ctfe.BuildLogBackendMap(") || strings.Contains(stack, "ctfe.ValidateLogMultiConfig(")):
+		(strings.Contains(top, "ctfe.BuildLogBackendMap(") || strings.Contains(top, "ctfe.ValidateLogMultiConfig(")):
 		// field access through an absent Backends / LogConfigs sub-message
 		return "config-panic-absent-sets"
 	}
